@@ -44,6 +44,7 @@ mod kani_c11 {
         let plen: u8 = kani::any();
         kani::assume(plen <= 32 && own.x_is_unicast()); // tag: pre
         cx.ip_addrs.push(IpCidr::Ipv4(Ipv4Cidr::new(own, plen))).unwrap();
+        kani::assume(!cx.is_broadcast_v4(own)); // tag: pre   (an interface address is not the broadcast address of its own subnet)
         (cx, own)
     }
 
@@ -54,7 +55,8 @@ mod kani_c11 {
         let mut storage: [SocketStorage; 0] = [];
         let mut sockets = SocketSet::new(&mut storage[..]);
         let (src, dst) = (any_v4(), any_v4());
-        let bytes: [u8; 24] = kani::any();
+        let mut bytes = [0u8; 24];
+        bytes[12] = kani::any();     // data offset: the only byte TcpPacket::new_checked inspects (the parser proper is replaced by its contract)
         let n: usize = kani::any();
         kani::assume(n <= 24); // tag: range
         let ip = IpRepr::Ipv4(Ipv4Repr { src_addr: src, dst_addr: dst, next_header: IpProtocol::Tcp, payload_len: n, hop_limit: 64 });
@@ -76,7 +78,8 @@ mod kani_c11 {
         let mut storage: [SocketStorage; 0] = [];
         let mut sockets = SocketSet::new(&mut storage[..]);
         let (src, dst) = (any_v6(), any_v6());
-        let bytes: [u8; 24] = kani::any();
+        let mut bytes = [0u8; 24];
+        bytes[12] = kani::any();
         let ip = IpRepr::Ipv6(Ipv6Repr { src_addr: src, dst_addr: dst, next_header: IpProtocol::Tcp, payload_len: 24, hop_limit: 64 });
         let r = cx.process_tcp(&mut sockets, false, ip, &bytes[..]);
         if let Some(_p) = r {
@@ -102,7 +105,8 @@ mod kani_c11 {
         let h = sockets.add(sock);
         let (src, dst) = (any_v4(), any_v4());
         kani::assume(!unicast_v4(&cx, dst)); // tag: pre   (broadcast, subnet broadcast, multicast or unspecified destination)
-        let bytes: [u8; 24] = kani::any();
+        let mut bytes = [0u8; 24];
+        bytes[12] = kani::any();
         let ip = IpRepr::Ipv4(Ipv4Repr { src_addr: src, dst_addr: dst, next_header: IpProtocol::Tcp, payload_len: 24, hop_limit: 64 });
         let r = cx.process_tcp(&mut sockets, false, ip, &bytes[..]);
         kani::cover!(true, "returns");
@@ -139,7 +143,8 @@ mod kani_c11 {
         let mut storage: [SocketStorage; 0] = [];
         let mut sockets = SocketSet::new(&mut storage[..]);
         let (src, dst) = (any_v4(), any_v4());
-        let bytes: [u8; 12] = kani::any();
+        let mut bytes = [0u8; 12];
+        bytes[4] = kani::any(); bytes[5] = kani::any();   // UDP length field: what UdpPacket::new_checked inspects
         let ipv4 = Ipv4Repr { src_addr: src, dst_addr: dst, next_header: IpProtocol::Udp, payload_len: 12, hop_limit: 64 };
         let r = cx.process_udp(&mut sockets, PacketMeta::default(), false, IpRepr::Ipv4(ipv4), &bytes[..]);
         if let Some(_p) = r {
@@ -156,7 +161,8 @@ mod kani_c11 {
         let mut sockets = SocketSet::new(&mut storage[..]);
         let (src, dst) = (any_v6(), any_v6());
         if exclude_known { kani::assume(dst.x_is_unicast()); } // tag: known-finding-F4
-        let bytes: [u8; 12] = kani::any();
+        let mut bytes = [0u8; 12];
+        bytes[4] = kani::any(); bytes[5] = kani::any();
         let ipv6 = Ipv6Repr { src_addr: src, dst_addr: dst, next_header: IpProtocol::Udp, payload_len: 12, hop_limit: 64 };
         kani::assume(src.x_is_unicast()); // tag: pre  (process_ipv6 drops non-unicast sources before any dispatch: obligation c11_process_ipv6_filters)
         let r = cx.process_udp(&mut sockets, PacketMeta::default(), false, IpRepr::Ipv6(ipv6), &bytes[..]);
